@@ -19,7 +19,8 @@ AttrMode == IOEnv.VT_ATTRS          \* "seq": attribute contents compared as seq
 
 ScOf(j) == [files |-> j.files, sched |-> j.sched,
             deps |-> [i \in 1..Len(j.deps) |-> Range(j.deps[i])],
-            never |-> Range(j.never), unknown |-> Range(j.unknown), tgt |-> j.tgt]
+            never |-> Range(j.never), unknown |-> Range(j.unknown), tgt |-> j.tgt,
+            builtin |-> Range(j.builtin), mode |-> j.mode]
 
 TNone == <<>>          \* no enumerated scenarios: the scenario comes with each trace
 
